@@ -133,7 +133,29 @@ fn doc_strategy() -> BoxedStrategy<Doc> {
 pub fn case_strategy(max_nodes: usize) -> BoxedStrategy<PrettyCase> {
     let node = (prop_oneof![5 => Just(0u8), 4 => Just(1u8), 3 => Just(2u8), 1 => Just(3u8), 1 => Just(4u8)], any::<u16>(), 0u8..3, doc_strategy())
         .prop_map(|(how, pick, via, doc)| NodeSpec { how, pick, via, doc });
-    proptest::collection::vec(node, 1..=max_nodes).prop_map(|nodes| PrettyCase { nodes }).boxed()
+    // "spine" documents: long runs of only/last children (depth 17 … 45), a sibling now and then
+    let spine_node = (prop_oneof![12 => Just(0u8), 1 => Just(1u8), 1 => Just(2u8)], any::<u16>(), 0u8..2, doc_strategy())
+        .prop_map(|(how, pick, via, doc)| NodeSpec { how, pick, via, doc });
+    prop_oneof![
+        6 => proptest::collection::vec(node, 1..=max_nodes).prop_map(|nodes| PrettyCase { nodes }),
+        1 => proptest::collection::vec(spine_node, 18..=46).prop_map(|nodes| PrettyCase { nodes }),
+    ]
+    .boxed()
+}
+
+/// a sink that fails after `left` bytes — a print into it ends with `Err`, possibly half way
+struct Limited {
+    left: usize,
+}
+impl fmt::Write for Limited {
+    fn write_str(&mut self, s: &str) -> fmt::Result {
+        if s.len() > self.left {
+            self.left = 0;
+            return Err(fmt::Error);
+        }
+        self.left -= s.len();
+        Ok(())
+    }
 }
 
 /// the forest as the generator defines it
@@ -265,6 +287,21 @@ pub fn eval(case: &PrettyCase, want_sample: bool) -> PrettyOut {
     for start in 0..case.nodes.len() {
         for mode in 0..4 {
             let id = ids[start];
+            // a print into a sink that gives up half way must not influence later prints
+            if (start + mode) % 3 == 0 {
+                let limit = (splitmix(case.nodes[start].doc.chunk_seed ^ mode as u64) % 48) as usize;
+                let _ = catch_unwind(AssertUnwindSafe(|| {
+                    use fmt::Write as _;
+                    let mut sink = Limited { left: limit };
+                    match mode {
+                        0 => write!(sink, "{}", id.debug_pretty_print(&arena)),
+                        1 => write!(sink, "{:#}", id.debug_pretty_print(&arena)),
+                        2 => write!(sink, "{:?}", id.debug_pretty_print(&arena)),
+                        _ => write!(sink, "{:#?}", id.debug_pretty_print(&arena)),
+                    }
+                }));
+                o.evals += 1;
+            }
             let got = catch_unwind(AssertUnwindSafe(|| match mode {
                 0 => format!("{}", id.debug_pretty_print(&arena)),
                 1 => format!("{:#}", id.debug_pretty_print(&arena)),
